@@ -429,22 +429,33 @@ func c24GenMgr(r *vhRng) string {
 	nops := 2 + r.Intn(5)
 	var ops []string
 	last := byte('A')
+	var lastDis []int
 	for i := 0; i < nops; i++ {
 		br := byte('A' + r.Intn(2))
 		if i > 0 && r.Chance(2, 3) { // alternate branches: this is what a per-epoch cache gets wrong
 			br = 'A' + 'B' - last
 		}
 		last = br
-		if r.Chance(1, 5) {
+		if r.Chance(1, 5) || (lastDis != nil && r.Chance(1, 2)) {
 			k := 1 + r.Intn(3)
 			d := env.at(br, c24EpochOfK(k))
 			idx := r.Intn(d.n + 1)
 			if r.Chance(1, 4) {
 				idx = r.Intn(4)
 			}
+			if lastDis != nil && r.Chance(2, 3) { // the same producer again, on the same or the other branch
+				idx = lastDis[2]
+				k = r.Pick(lastDis[1], lastDis[1], 2, 3)
+				if r.Chance(2, 3) {
+					br = byte(lastDis[0])
+				}
+			}
+			lastDis = []int{int(br), k, idx}
+			last = br
 			ops = append(ops, fmt.Sprintf("dis %c %d %d", br, k, idx))
 			continue
 		}
+		lastDis = nil
 		o := &c24VbOp{branch: br, epoch: focus}
 		if r.Chance(1, 4) {
 			o.epoch = uint64(r.Intn(4))
